@@ -18,7 +18,7 @@ void harness(void){
   for(size_t j=0;j<HP_M;j++){ mean[j]=in_double(-1e3,1e3); DVectorAppend(m->colaverage, mean[j]); }
 #endif
 #if HP_PRE>=2
-  for(size_t j=0;j<HP_M;j++){ scal[j]=in_double(0.02,1e3); DVectorAppend(m->colscaling, scal[j]); }
+  for(size_t j=0;j<HP_M;j++){ scal[j]=in_double(-1e3,1e3); ASSUME(scal[j]>=0.02 || scal[j]<=-0.02);   /* stored scalings of either sign (level scaling of a negative-mean column) */ DVectorAppend(m->colscaling, scal[j]); }
 #endif
   matrix *x; NewMatrix(&x,HP_N,HP_M); double E[HP_N][HP_M];
   for(size_t i=0;i<HP_N;i++)for(size_t j=0;j<HP_M;j++){ x->data[i][j]=in_double(-1e3,1e3); E[i][j]=(x->data[i][j]-mean[j])/scal[j]; }
@@ -40,7 +40,7 @@ void harness(void){
   for(size_t j=0;j<HP_M;j++){ mean[j]=in_double(-1e3,1e3); DVectorAppend(av, mean[j]); }
 #endif
 #if HP_PRE>=2
-  for(size_t j=0;j<HP_M;j++){ scal[j]=in_double(0.02,1e3); DVectorAppend(sc, scal[j]); }
+  for(size_t j=0;j<HP_M;j++){ scal[j]=in_double(-1e3,1e3); ASSUME(scal[j]>=0.02 || scal[j]<=-0.02);   /* stored scalings of either sign (level scaling of a negative-mean column) */ DVectorAppend(sc, scal[j]); }
 #endif
   PCAIndVarPredictor(t,p,av,sc,HP_NPC+HP_EXTRA,x);
   CHECK(x->row==HP_N && x->col==HP_M, "reconstruction has the shape of the data");
